@@ -6,12 +6,13 @@ import (
 	"verif/harness/sim"
 )
 
-var safetyPatterns = []string{"free", "free", "P1", "P1", "P2", "P3", "P4", "P4b", "P5", "P6", "P8", "P22", "P22", "P11", "P12", "stopstart", "reads"}
+var safetyPatterns = []string{"free", "free", "P1", "P1", "P2", "P3", "P4", "P4b", "P5", "P6", "P7", "P8", "P22", "P22", "P11", "P12", "stopstart", "reads", "P33", "P33"}
 
 func safetyProfile(name string) sim.Profile {
 	return sim.Profile{
 		Name: name, Voters: [2]int{1, 5}, Phases: [2]int{2, 7}, Patterns: safetyPatterns,
 		Writes: true, Crashes: true, Stops: true, EpilogueET: 8, Prologue: true,
+		Snapshots: "both", // compaction and snapshot transfer are part of ordinary operation: a lagging or diverged node may be repaired through InstallSnapshot
 	}
 }
 
